@@ -72,41 +72,57 @@ def run(ctx):
         ctx.guard(keep_only, ctx, lambda: c05.scope_restore(ctx, cfg, fs), lambda o: 'ParseCommand' in o.key, 'R.scope-restore')
         ctx.guard(keep_only, ctx, lambda: c10.usage_fallback(ctx, cfg, ctx.look(fs.one(r'^info::OptionParser::<T>::run_subparser$')), 'U.usage-fallback'), lambda o: True, 'U.usage-fallback')
 
+def _flag_sources(b, op, bb, depth=0):
+    """what a `&mut bool` argument points at: {'param'} when it is (a reborrow of) a parameter of the function, else the set of
+    ('const', v) / ('other', ..) values assigned to the local it borrows"""
+    out = set()
+    pl = op_place(op)
+    if pl is None or depth > 6:
+        return {('other', 'opaque')}
+    if pl[0] <= b.arg_count:
+        return {('param', b.name_of(pl[0]))}
+    for (_, _, k, st) in reaching_defs(b, pl[0], bb, 'term'):
+        if k != 'assign':
+            out.add(('other', k)); continue
+        rv = st['rv']
+        if rv['k'] == 'ref':
+            base = rv['place']
+            if base[0] <= b.arg_count:
+                out.add(('param', b.name_of(base[0])))
+            elif base[1]:
+                out |= _flag_sources(b, ['cp', [base[0], []]], bb, depth + 1)      # reborrow of another reference
+            else:
+                for (_, _, k2, st2) in reaching_defs(b, base[0], bb, 'term'):
+                    if k2 == 'assign' and st2['rv']['k'] == 'use' and op_const(st2['rv']['op']) is not None:
+                        out.add(('const', op_const(st2['rv']['op']).get('v')))
+                    else:
+                        out.add(('other', st2['rv']['k'] if k2 == 'assign' else k2))
+        elif rv['k'] == 'use' and op_place(rv['op']):
+            out |= _flag_sources(b, rv['op'], bb, depth + 1)
+        else:
+            out.add(('other', rv['k']))
+    return out
+
 def own_level_invariant(ctx, cfg, fs):
     """the "positionals and commands go last" rule of a level is checked PER LEVEL: when positional_invariant_check descends into a
     command's own meta it starts from a clean slate (`false`), whatever stood in front of the command one level up - otherwise asking
-    for help of (or above) a subcommand that follows a positional panics instead of describing it."""
+    for help of (or above) a subcommand that follows a positional panics instead of describing it.  The same holds for an adjacent
+    group that starts with a named item: it is a block of its own."""
     b = ctx.look(fs.one(r'^meta::Meta::positional_invariant_check::go$'))
     rec = [c for c in b.calls() if c.names and c.names[0] == b.path]
+    def under(sw, variant):
+        t = sw.target(variant)
+        others = [x for o_, x in sw.edges.items() if x != t]
+        return [c for c in rec if t is not None and c.bb in reachable_edges(b, t, avoid=others + [sw.b]) and not any(c.bb in reachable_edges(b, o_, avoid=[sw.b]) for o_ in others)]
     isw = [s_ for s_ in switches(b) if s_.kind == 'enum' and s_.enum == 'item::Item' and s_.target('Command') is not None]
-    under = []
-    for c in rec:
-        for s_ in isw:
-            t = s_.target('Command')
-            others = [x for o_, x in s_.edges.items() if x != t]
-            if c.bb in reachable_edges(b, t, avoid=others + [s_.b]) and not any(c.bb in reachable_edges(b, o_, avoid=[s_.b]) for o_ in others):
-                under.append(c)
-    ok = bool(under)
-    desc = []
-    for c in under:
-        # the flag handed down: `&mut local` whose value is the constant false
-        vals = set()
-        for r in provenance(b, c.args[1], c.bb, 'term', through=None):
-            vals.add(('const', r.what) if r.kind == 'const' else (r.kind, r.what))
-        if not vals:
-            pl = op_place(c.args[1])
-            for (_, _, k, st) in (reaching_defs(b, pl[0], c.bb, 'term') if pl else []):
-                if k == 'assign' and st['rv']['k'] == 'ref':
-                    l_ = st['rv']['place'][0]
-                    for (_, _, k2, st2) in reaching_defs(b, l_, c.bb, 'term'):
-                        if k2 == 'assign' and st2['rv']['k'] == 'use' and op_const(st2['rv']['op']) is not None:
-                            vals.add(('const', op_const(st2['rv']['op']).get('v')))
-                        else:
-                            vals.add(('other', k2))
-        desc.append(sorted(map(str, vals)))
-        ok = ok and vals == {('const', False)}
-    ctx.ob('L.own-level', 'positional_invariant_check:command-starts-clean', ok,
-           'descending into a command\'s own items starts with "no positional seen yet" = false (%d call(s): %s)' % (len(under), desc), where=b.where(), cfg=cfg)
+    msw = [s_ for s_ in switches(b) if s_.kind == 'enum' and s_.enum == 'meta::Meta' and s_.target('Adjacent') is not None]
+    cmd = [(c, _flag_sources(b, c.args[1], c.bb)) for s_ in isw for c in under(s_, 'Command')]
+    ctx.ob('L.own-level', 'positional_invariant_check:command-starts-clean', bool(cmd) and all(v == {('const', False)} for (_, v) in cmd),
+           'descending into a command\'s own items starts with "no positional seen yet" = false (%d call(s): %s)' % (len(cmd), [sorted(map(str, v)) for (_, v) in cmd]), where=b.where(), cfg=cfg)
+    adj = [(c, _flag_sources(b, c.args[1], c.bb)) for s_ in msw for c in under(s_, 'Adjacent')]
+    fresh = [(c, v) for (c, v) in adj if not any(x[0] == 'param' for x in v)]
+    ctx.ob('L.own-level', 'positional_invariant_check:named-adjacent-group-starts-clean', bool(fresh) and all(v == {('const', False)} for (_, v) in fresh),
+           'an adjacent group whose first item is named is checked from a clean state (%d call(s) under the Adjacent arm, %d with a flag of their own: %s)' % (len(adj), len(fresh), [sorted(map(str, v)) for (_, v) in fresh]), where=b.where(), cfg=cfg)
 
 def keep_only(ctx, fn, pred, rule):
     before = len(ctx.obs)
